@@ -1,4 +1,1743 @@
-//! c15 check (under construction)
+//! C15 - address and identifier text forms round-trip, reject the rest, never panic.
+//!
+//! Bounded exhaustive enumeration, two spaces:
+//!  (a) VALUES: every value of the stated value sets of every text-form type is displayed by the
+//!      real code, parsed back by the real code (FromStr and, where the type has one, its serde
+//!      string form) and must come back unchanged. TXT records with 1-3 entries likewise.
+//!  (b) STRINGS: every string of length <= L over a 15-character alphabet, every single-character
+//!      edit of every displayed form of a reduced value set, bracket mismatches, numeric overflow
+//!      forms, TXT record edits - each into EVERY parser. Oracle: no panic, and a string is accepted
+//!      only if the independent recogniser below (`reference`) accepts it with the same value.
+//!
+//! The recogniser implements the DOCUMENTED grammar: the displayed forms plus the documented
+//! alternative spellings (decimal AS below 2^32, `\d+` ISD, hex groups `1*HEXDIG` with value
+//! <= 0xffff, `CS|DS|Wildcard` with optional `_A`/`_M`, whitespace between TXT entries). The host
+//! part uses std's `Ipv4Addr`/`Ipv6Addr` parsers (documentation is silent, std defines it).
+//! Every accepted string outside that grammar is attributed to a minimal set of named
+//! relaxations (`LAX`) - each relaxation is one narrow violation class - or reported as
+//! `unexplained-accept-<parser>`.
+use std::{
+    cell::RefCell,
+    collections::BTreeMap,
+    net::{IpAddr, Ipv4Addr, Ipv6Addr},
+    str::FromStr,
+};
+
+use scion_stack::resolver::txt::{verif_parse_txt_payload, verif_resolve_txt_records};
+use sciparse::{
+    address::{
+        addr::{ScionAddr, ScionAddrSvc, ScionAddrV4, ScionAddrV6},
+        host_addr::{ScionHostAddr, ServiceAddr},
+        ip_addr::ScionIpAddr,
+        ip_socket_addr::ScionSocketIpAddr,
+        socket_addr::{ScionSocketAddr, ScionSocketAddrSvc, ScionSocketAddrV4, ScionSocketAddrV6},
+    },
+    identifier::{asn::Asn, isd::Isd, isd_asn::IsdAsn},
+};
+use vpc::{Value, json, rayon::prelude::*};
+
+// ---------------------------------------------------------------------------------------------
+// canonical values (harness-side, independent of the subject's types)
+// ---------------------------------------------------------------------------------------------
+
+#[derive(Clone, Copy, PartialEq, Eq, Debug, PartialOrd, Ord)]
+enum Host {
+    V4(u32),
+    V6(u128),
+    Svc(u16),
+}
+
+#[derive(Clone, PartialEq, Eq, Debug)]
+enum Val {
+    Isd(u16),
+    Asn(u64),
+    Ia(u64),
+    Host(Host),
+    Addr(u64, Host),
+    Sock(u64, Host, u16),
+    List(Vec<(u64, Host)>),
+}
+
+fn host_json(h: &Host) -> Value {
+    match h {
+        Host::V4(x) => json!({"v4": x}),
+        Host::V6(x) => json!({"v6": format!("{x:032x}")}),
+        Host::Svc(x) => json!({"svc": x}),
+    }
+}
+fn host_from_json(v: &Value) -> Option<Host> {
+    if let Some(x) = v.get("v4") {
+        return Some(Host::V4(x.as_u64()? as u32));
+    }
+    if let Some(x) = v.get("v6") {
+        return Some(Host::V6(u128::from_str_radix(x.as_str()?, 16).ok()?));
+    }
+    if let Some(x) = v.get("svc") {
+        return Some(Host::Svc(x.as_u64()? as u16));
+    }
+    None
+}
+impl Val {
+    fn to_json(&self) -> Value {
+        match self {
+            Val::Isd(x) => json!({"isd": x}),
+            Val::Asn(x) => json!({"asn": x}),
+            Val::Ia(x) => json!({"ia": x}),
+            Val::Host(h) => json!({"host": host_json(h)}),
+            Val::Addr(ia, h) => json!({"addr": {"ia": ia, "host": host_json(h)}}),
+            Val::Sock(ia, h, p) => json!({"sock": {"ia": ia, "host": host_json(h), "port": p}}),
+            Val::List(l) => json!({"list": l.iter().map(|(ia, h)| json!({"ia": ia, "host": host_json(h)})).collect::<Vec<_>>()}),
+        }
+    }
+    fn from_json(v: &Value) -> Option<Val> {
+        if let Some(x) = v.get("isd") {
+            return Some(Val::Isd(x.as_u64()? as u16));
+        }
+        if let Some(x) = v.get("asn") {
+            return Some(Val::Asn(x.as_u64()?));
+        }
+        if let Some(x) = v.get("ia") {
+            return Some(Val::Ia(x.as_u64()?));
+        }
+        if let Some(x) = v.get("host") {
+            return Some(Val::Host(host_from_json(x)?));
+        }
+        if let Some(x) = v.get("addr") {
+            return Some(Val::Addr(x.get("ia")?.as_u64()?, host_from_json(x.get("host")?)?));
+        }
+        if let Some(x) = v.get("sock") {
+            return Some(Val::Sock(x.get("ia")?.as_u64()?, host_from_json(x.get("host")?)?, x.get("port")?.as_u64()? as u16));
+        }
+        if let Some(x) = v.get("list") {
+            let mut l = vec![];
+            for e in x.as_array()? {
+                l.push((e.get("ia")?.as_u64()?, host_from_json(e.get("host")?)?));
+            }
+            return Some(Val::List(l));
+        }
+        None
+    }
+}
+
+fn h2s(h: &Host) -> ScionHostAddr {
+    match h {
+        Host::V4(x) => ScionHostAddr::V4(Ipv4Addr::from(*x)),
+        Host::V6(x) => ScionHostAddr::V6(Ipv6Addr::from(*x)),
+        Host::Svc(x) => ScionHostAddr::Svc(ServiceAddr(*x)),
+    }
+}
+fn s2h(h: ScionHostAddr) -> Host {
+    match h {
+        ScionHostAddr::V4(x) => Host::V4(u32::from(x)),
+        ScionHostAddr::V6(x) => Host::V6(u128::from(x)),
+        ScionHostAddr::Svc(x) => Host::Svc(x.0),
+    }
+}
+fn ip2h(ip: IpAddr) -> Host {
+    match ip {
+        IpAddr::V4(x) => Host::V4(u32::from(x)),
+        IpAddr::V6(x) => Host::V6(u128::from(x)),
+    }
+}
+fn h2ip(h: &Host) -> Option<IpAddr> {
+    match h {
+        Host::V4(x) => Some(IpAddr::V4(Ipv4Addr::from(*x))),
+        Host::V6(x) => Some(IpAddr::V6(Ipv6Addr::from(*x))),
+        Host::Svc(_) => None,
+    }
+}
+
+// ---------------------------------------------------------------------------------------------
+// the parsers under test
+// ---------------------------------------------------------------------------------------------
+
+#[derive(Clone, Copy, PartialEq, Eq, Debug, PartialOrd, Ord)]
+#[repr(usize)]
+enum P {
+    Isd,
+    Asn,
+    IsdAsn,
+    ServiceAddr,
+    ScionHostAddr,
+    ScionAddr,
+    ScionAddrV4,
+    ScionAddrV6,
+    ScionAddrSvc,
+    ScionIpAddr,
+    ScionSocketAddr,
+    ScionSocketAddrV4,
+    ScionSocketAddrV6,
+    ScionSocketAddrSvc,
+    ScionSocketIpAddr,
+    TxtPayload,
+    TxtRecord,
+}
+const NP: usize = 17;
+const ALL_P: [P; NP] = [
+    P::Isd,
+    P::Asn,
+    P::IsdAsn,
+    P::ServiceAddr,
+    P::ScionHostAddr,
+    P::ScionAddr,
+    P::ScionAddrV4,
+    P::ScionAddrV6,
+    P::ScionAddrSvc,
+    P::ScionIpAddr,
+    P::ScionSocketAddr,
+    P::ScionSocketAddrV4,
+    P::ScionSocketAddrV6,
+    P::ScionSocketAddrSvc,
+    P::ScionSocketIpAddr,
+    P::TxtPayload,
+    P::TxtRecord,
+];
+impl P {
+    fn name(self) -> &'static str {
+        match self {
+            P::Isd => "Isd",
+            P::Asn => "Asn",
+            P::IsdAsn => "IsdAsn",
+            P::ServiceAddr => "ServiceAddr",
+            P::ScionHostAddr => "ScionHostAddr",
+            P::ScionAddr => "ScionAddr",
+            P::ScionAddrV4 => "ScionAddrV4",
+            P::ScionAddrV6 => "ScionAddrV6",
+            P::ScionAddrSvc => "ScionAddrSvc",
+            P::ScionIpAddr => "ScionIpAddr",
+            P::ScionSocketAddr => "ScionSocketAddr",
+            P::ScionSocketAddrV4 => "ScionSocketAddrV4",
+            P::ScionSocketAddrV6 => "ScionSocketAddrV6",
+            P::ScionSocketAddrSvc => "ScionSocketAddrSvc",
+            P::ScionSocketIpAddr => "ScionSocketIpAddr",
+            P::TxtPayload => "TxtPayload",
+            P::TxtRecord => "TxtRecord",
+        }
+    }
+    fn from_name(n: &str) -> Option<P> {
+        ALL_P.iter().copied().find(|p| p.name() == n)
+    }
+    fn is_sock(self) -> bool {
+        matches!(self, P::ScionSocketAddr | P::ScionSocketAddrV4 | P::ScionSocketAddrV6 | P::ScionSocketAddrSvc | P::ScionSocketIpAddr)
+    }
+    /// Which hosts the type admits.
+    fn host_kind(self) -> HK {
+        match self {
+            P::ScionAddrV4 | P::ScionSocketAddrV4 => HK::V4,
+            P::ScionAddrV6 | P::ScionSocketAddrV6 => HK::V6,
+            P::ScionAddrSvc | P::ScionSocketAddrSvc | P::ServiceAddr => HK::Svc,
+            P::ScionIpAddr | P::ScionSocketIpAddr | P::TxtPayload | P::TxtRecord => HK::Ip,
+            _ => HK::Any,
+        }
+    }
+}
+
+#[derive(Clone, Copy, PartialEq, Eq)]
+enum HK {
+    Any,
+    V4,
+    V6,
+    Svc,
+    Ip,
+}
+impl HK {
+    fn admits(self, h: &Host) -> bool {
+        match (self, h) {
+            (HK::Any, _) => true,
+            (HK::V4, Host::V4(_)) | (HK::V6, Host::V6(_)) | (HK::Svc, Host::Svc(_)) => true,
+            (HK::Ip, Host::V4(_)) | (HK::Ip, Host::V6(_)) => true,
+            _ => false,
+        }
+    }
+}
+
+/// A text-form type of the subject: conversion to/from the harness value, serde string form.
+trait Subject: Sized + std::fmt::Display + FromStr {
+    fn to_val(&self) -> Val;
+    fn from_val(v: &Val) -> Option<Self>;
+    /// serde_json serialisation, `None` when the type has no serde form.
+    fn ser(&self) -> Option<String>;
+    /// serde_json deserialisation; outer `None` when the type has no serde form.
+    fn de(json: &str) -> Option<Option<Self>>;
+}
+
+macro_rules! serde_yes {
+    ($T:ty) => {
+        fn ser(&self) -> Option<String> {
+            Some(vpc::serde_json::to_string(self).unwrap_or_else(|e| format!("<serialize error {e}>")))
+        }
+        fn de(json: &str) -> Option<Option<Self>> {
+            Some(vpc::serde_json::from_str::<$T>(json).ok())
+        }
+    };
+}
+
+impl Subject for Isd {
+    fn to_val(&self) -> Val {
+        Val::Isd(self.0)
+    }
+    fn from_val(v: &Val) -> Option<Self> {
+        if let Val::Isd(x) = v { Some(Isd(*x)) } else { None }
+    }
+    serde_yes!(Isd);
+}
+impl Subject for Asn {
+    fn to_val(&self) -> Val {
+        Val::Asn(self.0)
+    }
+    fn from_val(v: &Val) -> Option<Self> {
+        if let Val::Asn(x) = v { Some(Asn(*x)) } else { None }
+    }
+    serde_yes!(Asn);
+}
+impl Subject for IsdAsn {
+    fn to_val(&self) -> Val {
+        Val::Ia(self.0)
+    }
+    fn from_val(v: &Val) -> Option<Self> {
+        if let Val::Ia(x) = v { Some(IsdAsn(*x)) } else { None }
+    }
+    serde_yes!(IsdAsn);
+}
+impl Subject for ServiceAddr {
+    fn to_val(&self) -> Val {
+        Val::Host(Host::Svc(self.0))
+    }
+    fn from_val(v: &Val) -> Option<Self> {
+        if let Val::Host(Host::Svc(x)) = v { Some(ServiceAddr(*x)) } else { None }
+    }
+    fn ser(&self) -> Option<String> {
+        None
+    }
+    fn de(_: &str) -> Option<Option<Self>> {
+        None
+    }
+}
+impl Subject for ScionHostAddr {
+    fn to_val(&self) -> Val {
+        Val::Host(s2h(*self))
+    }
+    fn from_val(v: &Val) -> Option<Self> {
+        if let Val::Host(h) = v { Some(h2s(h)) } else { None }
+    }
+    serde_yes!(ScionHostAddr);
+}
+impl Subject for ScionAddr {
+    fn to_val(&self) -> Val {
+        Val::Addr(self.isd_asn().0, s2h(self.host()))
+    }
+    fn from_val(v: &Val) -> Option<Self> {
+        if let Val::Addr(ia, h) = v { Some(ScionAddr::new(IsdAsn(*ia), h2s(h))) } else { None }
+    }
+    serde_yes!(ScionAddr);
+}
+impl Subject for ScionAddrV4 {
+    fn to_val(&self) -> Val {
+        Val::Addr(self.isd_asn.0, Host::V4(u32::from(self.host)))
+    }
+    fn from_val(v: &Val) -> Option<Self> {
+        if let Val::Addr(ia, Host::V4(x)) = v { Some(ScionAddrV4::new(IsdAsn(*ia), Ipv4Addr::from(*x))) } else { None }
+    }
+    serde_yes!(ScionAddrV4);
+}
+impl Subject for ScionAddrV6 {
+    fn to_val(&self) -> Val {
+        Val::Addr(self.isd_asn.0, Host::V6(u128::from(self.host)))
+    }
+    fn from_val(v: &Val) -> Option<Self> {
+        if let Val::Addr(ia, Host::V6(x)) = v { Some(ScionAddrV6::new(IsdAsn(*ia), Ipv6Addr::from(*x))) } else { None }
+    }
+    serde_yes!(ScionAddrV6);
+}
+impl Subject for ScionAddrSvc {
+    fn to_val(&self) -> Val {
+        Val::Addr(self.isd_asn.0, Host::Svc(self.host.0))
+    }
+    fn from_val(v: &Val) -> Option<Self> {
+        if let Val::Addr(ia, Host::Svc(x)) = v { Some(ScionAddrSvc::new(IsdAsn(*ia), ServiceAddr(*x))) } else { None }
+    }
+    serde_yes!(ScionAddrSvc);
+}
+impl Subject for ScionIpAddr {
+    fn to_val(&self) -> Val {
+        Val::Addr(self.isd_asn().0, ip2h(self.ip()))
+    }
+    fn from_val(v: &Val) -> Option<Self> {
+        if let Val::Addr(ia, h) = v { Some(ScionIpAddr::new(IsdAsn(*ia), h2ip(h)?)) } else { None }
+    }
+    serde_yes!(ScionIpAddr);
+}
+impl Subject for ScionSocketAddr {
+    fn to_val(&self) -> Val {
+        Val::Sock(self.isd_asn().0, s2h(self.host()), self.port())
+    }
+    fn from_val(v: &Val) -> Option<Self> {
+        if let Val::Sock(ia, h, p) = v { Some(ScionSocketAddr::new(IsdAsn(*ia), h2s(h), *p)) } else { None }
+    }
+    serde_yes!(ScionSocketAddr);
+}
+impl Subject for ScionSocketAddrV4 {
+    fn to_val(&self) -> Val {
+        Val::Sock(self.isd_asn.0, Host::V4(u32::from(self.host)), self.port)
+    }
+    fn from_val(v: &Val) -> Option<Self> {
+        if let Val::Sock(ia, Host::V4(x), p) = v { Some(ScionSocketAddrV4::new(IsdAsn(*ia), Ipv4Addr::from(*x), *p)) } else { None }
+    }
+    serde_yes!(ScionSocketAddrV4);
+}
+impl Subject for ScionSocketAddrV6 {
+    fn to_val(&self) -> Val {
+        Val::Sock(self.isd_asn.0, Host::V6(u128::from(self.host)), self.port)
+    }
+    fn from_val(v: &Val) -> Option<Self> {
+        if let Val::Sock(ia, Host::V6(x), p) = v { Some(ScionSocketAddrV6::new(IsdAsn(*ia), Ipv6Addr::from(*x), *p)) } else { None }
+    }
+    serde_yes!(ScionSocketAddrV6);
+}
+impl Subject for ScionSocketAddrSvc {
+    fn to_val(&self) -> Val {
+        Val::Sock(self.isd_asn.0, Host::Svc(self.host.0), self.port)
+    }
+    fn from_val(v: &Val) -> Option<Self> {
+        if let Val::Sock(ia, Host::Svc(x), p) = v { Some(ScionSocketAddrSvc::new(IsdAsn(*ia), ServiceAddr(*x), *p)) } else { None }
+    }
+    serde_yes!(ScionSocketAddrSvc);
+}
+impl Subject for ScionSocketIpAddr {
+    fn to_val(&self) -> Val {
+        Val::Sock(self.isd_asn().0, ip2h(self.ip()), self.port())
+    }
+    fn from_val(v: &Val) -> Option<Self> {
+        if let Val::Sock(ia, h, p) = v { Some(ScionSocketIpAddr::new(IsdAsn(*ia), h2ip(h)?, *p)) } else { None }
+    }
+    serde_yes!(ScionSocketIpAddr);
+}
+
+macro_rules! with_type {
+    ($p:expr, $T:ident => $body:expr, txt => $txt:expr) => {
+        match $p {
+            P::Isd => { type $T = Isd; $body }
+            P::Asn => { type $T = Asn; $body }
+            P::IsdAsn => { type $T = IsdAsn; $body }
+            P::ServiceAddr => { type $T = ServiceAddr; $body }
+            P::ScionHostAddr => { type $T = ScionHostAddr; $body }
+            P::ScionAddr => { type $T = ScionAddr; $body }
+            P::ScionAddrV4 => { type $T = ScionAddrV4; $body }
+            P::ScionAddrV6 => { type $T = ScionAddrV6; $body }
+            P::ScionAddrSvc => { type $T = ScionAddrSvc; $body }
+            P::ScionIpAddr => { type $T = ScionIpAddr; $body }
+            P::ScionSocketAddr => { type $T = ScionSocketAddr; $body }
+            P::ScionSocketAddrV4 => { type $T = ScionSocketAddrV4; $body }
+            P::ScionSocketAddrV6 => { type $T = ScionSocketAddrV6; $body }
+            P::ScionSocketAddrSvc => { type $T = ScionSocketAddrSvc; $body }
+            P::ScionSocketIpAddr => { type $T = ScionSocketIpAddr; $body }
+            P::TxtPayload | P::TxtRecord => $txt,
+        }
+    };
+}
+
+fn list_val(l: Vec<ScionIpAddr>) -> Val {
+    Val::List(l.into_iter().map(|a| (a.isd_asn().0, ip2h(a.ip()))).collect())
+}
+
+/// The REAL parser `p` on `s` (call inside `vpc::catch`).
+fn real_parse(p: P, s: &str) -> Option<Val> {
+    match p {
+        P::TxtPayload => verif_parse_txt_payload(s).ok().map(list_val),
+        P::TxtRecord => verif_resolve_txt_records("verif.example", vec![s.to_string()]).ok().map(list_val),
+        _ => with_type!(p, T => <T as FromStr>::from_str(s).ok().map(|t| t.to_val()), txt => unreachable!()),
+    }
+}
+
+/// The REAL display of value `v` as type `p` (TXT records have no Display in the subject: the
+/// record is composed from the real Display of IsdAsn and IpAddr following the documented ABNF).
+fn real_display(p: P, v: &Val) -> Option<String> {
+    match p {
+        P::TxtPayload | P::TxtRecord => {
+            let Val::List(l) = v else { return None };
+            let mut s = String::new();
+            if p == P::TxtRecord {
+                s.push_str("scion=v1;");
+            }
+            for (i, (ia, h)) in l.iter().enumerate() {
+                if i > 0 {
+                    s.push(',');
+                }
+                s.push_str(&format!("[{},{}]", IsdAsn(*ia), h2ip(h)?));
+            }
+            Some(s)
+        }
+        _ => with_type!(p, T => <T as Subject>::from_val(v).map(|t| t.to_string()), txt => unreachable!()),
+    }
+}
+fn real_ser(p: P, v: &Val) -> Option<String> {
+    with_type!(p, T => <T as Subject>::from_val(v).and_then(|t| t.ser()), txt => None)
+}
+fn real_de(p: P, json: &str) -> Option<Option<Val>> {
+    with_type!(p, T => <T as Subject>::de(json).map(|o| o.map(|t| t.to_val())), txt => None)
+}
+
+// ---------------------------------------------------------------------------------------------
+// independent reference recogniser (documented grammar) with named relaxations
+// ---------------------------------------------------------------------------------------------
+
+const LAX_PLUS_ISD: u32 = 1 << 0;
+const LAX_PLUS_ASN_DEC: u32 = 1 << 1;
+const LAX_PLUS_ASN_HEX: u32 = 1 << 2;
+const LAX_PLUS_PORT: u32 = 1 << 3;
+const LAX_SOCK_OPEN_ANY: u32 = 1 << 4;
+const LAX_SOCK_CLOSE_ANY: u32 = 1 << 5;
+const LAX_TXT_TRAILING_COMMA: u32 = 1 << 6;
+const LAX_TXT_INNER_WS: u32 = 1 << 7;
+const LAX_TXT_OUTER_WS: u32 = 1 << 8;
+const N_LAX: u32 = 9;
+const LAX_ALL: u32 = (1 << N_LAX) - 1;
+
+/// Narrow violation class of each relaxation: "the real parser accepts a string that is only in
+/// the documented grammar when this rule is relaxed".
+fn lax_class(bit: u32) -> &'static str {
+    match bit {
+        LAX_PLUS_ISD => "plus-sign-accepted-in-isd",
+        LAX_PLUS_ASN_DEC => "plus-sign-accepted-in-decimal-asn",
+        LAX_PLUS_ASN_HEX => "plus-sign-accepted-in-hex-asn-group",
+        LAX_PLUS_PORT => "plus-sign-accepted-in-port",
+        LAX_SOCK_OPEN_ANY => "socketaddr-opening-bracket-not-required",
+        LAX_SOCK_CLOSE_ANY => "socketaddr-closing-bracket-not-required",
+        LAX_TXT_TRAILING_COMMA => "txt-trailing-comma-accepted",
+        LAX_TXT_INNER_WS => "txt-whitespace-inside-entry-accepted",
+        LAX_TXT_OUTER_WS => "txt-leading-or-trailing-whitespace-accepted",
+        _ => "unknown-relaxation",
+    }
+}
+fn lax_what(bit: u32) -> &'static str {
+    match bit {
+        LAX_PLUS_ISD => "a '+' sign in front of the ISD number is accepted (not a displayed form, not documented)",
+        LAX_PLUS_ASN_DEC => "a '+' sign in front of a decimal AS number is accepted",
+        LAX_PLUS_ASN_HEX => "a '+' sign in front of a hex AS group is accepted",
+        LAX_PLUS_PORT => "a '+' sign in front of the port is accepted",
+        LAX_SOCK_OPEN_ANY => "socket address accepted although it does not start with '[': the first character is silently dropped",
+        LAX_SOCK_CLOSE_ANY => "socket address accepted although there is no ']' before ':port': the last character before the port separator is silently dropped",
+        LAX_TXT_TRAILING_COMMA => "TXT address list accepted with a trailing ',' (ABNF: address *(\",\" address))",
+        LAX_TXT_INNER_WS => "TXT entry accepted with whitespace inside the brackets (ABNF has none; only whitespace BETWEEN entries is documented by a test)",
+        LAX_TXT_OUTER_WS => "TXT payload accepted with leading/trailing whitespace",
+        _ => "?",
+    }
+}
+
+/// `1*DIGIT` with value <= max (leading zeros are within `\d+` of the documented pattern).
+fn r_dec(s: &str, max: u64, plus_ok: bool) -> Option<u64> {
+    let s = if plus_ok { s.strip_prefix('+').unwrap_or(s) } else { s };
+    if s.is_empty() {
+        return None;
+    }
+    let mut v: u64 = 0;
+    for b in s.bytes() {
+        if !b.is_ascii_digit() {
+            return None;
+        }
+        v = v.checked_mul(10)?.checked_add((b - b'0') as u64)?;
+    }
+    if v > max { None } else { Some(v) }
+}
+/// `1*HEXDIG` with value <= 0xffff.
+fn r_hexgroup(s: &str, plus_ok: bool) -> Option<u64> {
+    let s = if plus_ok { s.strip_prefix('+').unwrap_or(s) } else { s };
+    if s.is_empty() {
+        return None;
+    }
+    let mut v: u64 = 0;
+    for b in s.bytes() {
+        let d = match b {
+            b'0'..=b'9' => b - b'0',
+            b'a'..=b'f' => b - b'a' + 10,
+            b'A'..=b'F' => b - b'A' + 10,
+            _ => return None,
+        };
+        v = v.checked_mul(16)?.checked_add(d as u64)?;
+        if v > 0xffff_ffff {
+            return None; // far beyond a group; keeps the accumulator small
+        }
+    }
+    if v > 0xffff { None } else { Some(v) }
+}
+fn all_digits(s: &str) -> bool {
+    !s.is_empty() && s.bytes().all(|b| b.is_ascii_digit())
+}
+/// AS: decimal below 2^32, or three colon-separated hex groups.
+fn r_asn(s: &str, lax: u32) -> Option<u64> {
+    let body = if lax & LAX_PLUS_ASN_DEC != 0 { s.strip_prefix('+').unwrap_or(s) } else { s };
+    if all_digits(body) {
+        // an all-digit token is the decimal notation and nothing else
+        return r_dec(s, u32::MAX as u64, lax & LAX_PLUS_ASN_DEC != 0);
+    }
+    let plus = lax & LAX_PLUS_ASN_HEX != 0;
+    let c1 = s.find(':')?;
+    let g1 = r_hexgroup(&s[..c1], plus)?;
+    let rest = &s[c1 + 1..];
+    let c2 = rest.find(':')?;
+    let g2 = r_hexgroup(&rest[..c2], plus)?;
+    let g3 = r_hexgroup(&rest[c2 + 1..], plus)?; // a further ':' is not a hex digit
+    Some((g1 << 32) | (g2 << 16) | g3)
+}
+fn r_isd(s: &str, lax: u32) -> Option<u64> {
+    r_dec(s, u16::MAX as u64, lax & LAX_PLUS_ISD != 0)
+}
+fn r_ia(s: &str, lax: u32) -> Option<u64> {
+    let d = s.find('-')?;
+    let isd = r_isd(&s[..d], lax)?;
+    let asn = r_asn(&s[d + 1..], lax)?; // a second '-' is in neither AS notation
+    Some((isd << 48) | asn)
+}
+/// Service address: `CS|DS|Wildcard` [`_A`|`_M`], or the displayed form of an unnamed one.
+fn r_svc(s: &str) -> Option<u16> {
+    let named = [("CS", 0x0002u16), ("DS", 0x0001), ("Wildcard", 0x0010)];
+    for (name, base) in named {
+        if let Some(rest) = s.strip_prefix(name) {
+            return match rest {
+                "" | "_A" => Some(base),
+                "_M" => Some(base | 0x8000),
+                _ => None,
+            };
+        }
+    }
+    // displayed form of every other value: "<SVC:0x%04x>" of the anycast value, "_M" if multicast
+    let rest = s.strip_prefix("<SVC:0x")?;
+    if rest.len() < 5 || !rest.is_char_boundary(4) {
+        return None;
+    }
+    let (digits, tail) = rest.split_at(4);
+    if !digits.bytes().all(|b| b.is_ascii_digit() || (b'a'..=b'f').contains(&b)) {
+        return None;
+    }
+    let v = u16::from_str_radix(digits, 16).ok()?;
+    if v >= 0x8000 || v == 1 || v == 2 || v == 0x10 {
+        return None; // those are displayed differently
+    }
+    match tail {
+        ">" => Some(v),
+        ">_M" => Some(v | 0x8000),
+        _ => None,
+    }
+}
+/// Host: std's IPv4/IPv6 syntax (documentation is silent, std defines it) or a service address.
+fn r_host(s: &str, hk: HK) -> Option<Host> {
+    let h = if let Ok(a) = Ipv4Addr::from_str(s) {
+        Host::V4(u32::from(a))
+    } else if let Ok(a) = Ipv6Addr::from_str(s) {
+        Host::V6(u128::from(a))
+    } else {
+        Host::Svc(r_svc(s)?)
+    };
+    if hk.admits(&h) { Some(h) } else { None }
+}
+/// `isd-as "," host`
+fn r_addr(s: &str, hk: HK, lax: u32) -> Option<(u64, Host)> {
+    let c = s.find(',')?;
+    let ia = r_ia(&s[..c], lax)?;
+    let h = r_host(&s[c + 1..], hk)?; // no host form contains ','
+    Some((ia, h))
+}
+/// `"[" addr "]" ":" port`
+fn r_sock(s: &str, hk: HK, lax: u32) -> Option<(u64, Host, u16)> {
+    // from the right: port digits, ':', the closing bracket; from the left: the opening bracket
+    let colon = s.rfind(':')?;
+    let port = r_dec(&s[colon + 1..], u16::MAX as u64, lax & LAX_PLUS_PORT != 0)? as u16;
+    let pre = &s[..colon];
+    let mut it = pre.chars();
+    let open = it.next()?;
+    let close = it.next_back()?;
+    if open != '[' && lax & LAX_SOCK_OPEN_ANY == 0 {
+        return None;
+    }
+    if close != ']' && lax & LAX_SOCK_CLOSE_ANY == 0 {
+        return None;
+    }
+    let (ia, h) = r_addr(it.as_str(), hk, lax)?; // no addr form contains '[' or ']'
+    Some((ia, h, port))
+}
+/// `address *( *WSP "," *WSP address )`, `address = "[" isd-as "," ip "]"`.
+fn r_txt_payload(s: &str, lax: u32) -> Option<Vec<(u64, Host)>> {
+    let inner_ws = lax & LAX_TXT_INNER_WS != 0;
+    let mut rest = if lax & LAX_TXT_OUTER_WS != 0 { s.trim() } else { s };
+    let mut out = vec![];
+    loop {
+        rest = rest.strip_prefix('[')?;
+        let close = rest.find(']')?;
+        let mut entry = &rest[..close];
+        rest = &rest[close + 1..];
+        if inner_ws {
+            entry = entry.trim();
+        }
+        let c = entry.find(',')?;
+        let (mut a, mut h) = (&entry[..c], &entry[c + 1..]);
+        if inner_ws {
+            a = a.trim();
+            h = h.trim();
+        }
+        let ia = r_ia(a, lax)?;
+        let ip = IpAddr::from_str(h).ok()?;
+        out.push((ia, ip2h(ip)));
+        if rest.is_empty() {
+            return Some(out);
+        }
+        // documented (test `parse_txt_payload_allows_whitespace_between_entries`): ws around ','
+        let after_comma = rest.trim_start().strip_prefix(',')?;
+        let next = after_comma.trim_start();
+        if next.is_empty() {
+            // nothing follows the comma
+            return if lax & LAX_TXT_TRAILING_COMMA != 0 && after_comma.is_empty() { Some(out) } else { None };
+        }
+        rest = next;
+    }
+}
+
+/// The reference recogniser for parser `p` under relaxation set `lax` (0 = documented grammar).
+fn reference(p: P, s: &str, lax: u32) -> Option<Val> {
+    let hk = p.host_kind();
+    match p {
+        P::Isd => r_isd(s, lax).map(|x| Val::Isd(x as u16)),
+        P::Asn => r_asn(s, lax).map(Val::Asn),
+        P::IsdAsn => r_ia(s, lax).map(Val::Ia),
+        P::ServiceAddr | P::ScionHostAddr => r_host(s, hk).map(Val::Host),
+        P::ScionAddr | P::ScionAddrV4 | P::ScionAddrV6 | P::ScionAddrSvc | P::ScionIpAddr => r_addr(s, hk, lax).map(|(ia, h)| Val::Addr(ia, h)),
+        P::ScionSocketAddr | P::ScionSocketAddrV4 | P::ScionSocketAddrV6 | P::ScionSocketAddrSvc | P::ScionSocketIpAddr => {
+            r_sock(s, hk, lax).map(|(ia, h, port)| Val::Sock(ia, h, port))
+        }
+        P::TxtPayload => r_txt_payload(s, lax).map(Val::List),
+        P::TxtRecord => r_txt_payload(s.strip_prefix("scion=v1;")?, lax).map(Val::List),
+    }
+}
+
+/// Smallest relaxation set (by size, then numerically) under which the reference yields `v`.
+fn minimal_lax(p: P, s: &str, v: &Val) -> Option<u32> {
+    if reference(p, s, LAX_ALL).as_ref() != Some(v) {
+        return None;
+    }
+    for size in 1..=N_LAX {
+        for mask in 1..=LAX_ALL {
+            if mask.count_ones() == size && reference(p, s, mask).as_ref() == Some(v) {
+                return Some(mask);
+            }
+        }
+    }
+    None
+}
+
+// ---------------------------------------------------------------------------------------------
+// statistics, deterministic violation aggregation
+// ---------------------------------------------------------------------------------------------
+
+const VIOL_CALL_CAP: u64 = 100_000;
+const O_ACC_CANON: usize = 0; // accepted, string is the displayed form of the value
+const O_ACC_ALT: usize = 1; // accepted, documented alternative spelling
+const O_ACC_BAD: usize = 2; // accepted, not in the documented grammar (violation)
+const O_REJ: usize = 3; // rejected, reference rejects too
+const O_REJ_DOC: usize = 4; // rejected although in the documented grammar (counted, not a violation)
+const O_PANIC: usize = 5;
+const NO: usize = 6;
+const O_NAMES: [&str; NO] = ["accepted-displayed-form", "accepted-documented-alternative", "accepted-OUTSIDE-grammar", "rejected", "rejected-though-in-grammar", "PANIC"];
+
+#[derive(Clone)]
+struct Witness {
+    /// number of relaxations needed to explain the witness (1 = the class alone); 0 for other kinds
+    rank: u32,
+    parser: P,
+    mode: &'static str,
+    input: String,
+    extra: Value,
+}
+/// Borrowed ordering key of a witness: fewest relaxations, shortest input, then lexicographic.
+type WKey<'a> = (u32, usize, &'a str, usize, &'a str);
+fn wkey<'a>(rank: u32, input: &'a str, p: P, mode: &'a str) -> WKey<'a> {
+    (rank, input.chars().count(), input, p as usize, mode)
+}
+impl Witness {
+    fn key(&self) -> WKey<'_> {
+        wkey(self.rank, &self.input, self.parser, self.mode)
+    }
+    fn json(&self) -> Value {
+        json!({"mode": self.mode, "parser": self.parser.name(), "input": self.input, "input_utf8_hex": vpc::hex(self.input.as_bytes()), "detail": self.extra})
+    }
+}
+struct VAgg {
+    count: u64,
+    what: String,
+    min: Witness,
+}
+
+#[derive(Default)]
+struct Stats {
+    evals: u64,
+    strings: u64,
+    strings_accepted_by_some_parser: u64,
+    by: [[u64; NO]; NP],
+    rt_ok: [u64; NP],
+    rt_fail: [u64; NP],
+    serde_ok: [u64; NP],
+    serde_fail: [u64; NP],
+    ref_selfcheck_fail: Vec<String>,
+    accepted_hashes: Vec<u64>,
+    viols: BTreeMap<String, VAgg>,
+    rejdoc_samples: Vec<(String, &'static str)>,
+}
+impl Stats {
+    /// Count a witness of `class`; `build` (what, detail) runs only when the witness becomes the
+    /// minimal one of its class.
+    fn viol(&mut self, class: &str, rank: u32, p: P, mode: &'static str, input: &str, build: impl FnOnce() -> (String, Value)) {
+        match self.viols.get_mut(class) {
+            Some(a) => {
+                a.count += 1;
+                if wkey(rank, input, p, mode) < a.min.key() {
+                    let (what, extra) = build();
+                    a.what = what;
+                    a.min = Witness { rank, parser: p, mode, input: input.to_string(), extra };
+                }
+            }
+            None => {
+                let (what, extra) = build();
+                self.viols.insert(class.to_string(), VAgg { count: 1, what, min: Witness { rank, parser: p, mode, input: input.to_string(), extra } });
+            }
+        }
+    }
+    fn merge(mut self, o: Stats) -> Stats {
+        self.evals += o.evals;
+        self.strings += o.strings;
+        self.strings_accepted_by_some_parser += o.strings_accepted_by_some_parser;
+        for p in 0..NP {
+            for k in 0..NO {
+                self.by[p][k] += o.by[p][k];
+            }
+            self.rt_ok[p] += o.rt_ok[p];
+            self.rt_fail[p] += o.rt_fail[p];
+            self.serde_ok[p] += o.serde_ok[p];
+            self.serde_fail[p] += o.serde_fail[p];
+        }
+        for x in o.ref_selfcheck_fail {
+            if self.ref_selfcheck_fail.len() < 5 {
+                self.ref_selfcheck_fail.push(x);
+            }
+        }
+        self.accepted_hashes.extend(o.accepted_hashes);
+        if self.accepted_hashes.len() > 4_000_000 {
+            self.accepted_hashes.sort_unstable();
+            self.accepted_hashes.dedup();
+        }
+        for (k, a) in o.viols {
+            match self.viols.get_mut(&k) {
+                Some(b) => {
+                    b.count += a.count;
+                    if a.min.key() < b.min.key() {
+                        b.min = a.min;
+                        b.what = a.what;
+                    }
+                }
+                None => {
+                    self.viols.insert(k, a);
+                }
+            }
+        }
+        self.rejdoc_samples.extend(o.rejdoc_samples);
+        self.rejdoc_samples.sort();
+        self.rejdoc_samples.dedup();
+        self.rejdoc_samples.truncate(12);
+        self
+    }
+}
+
+thread_local! {
+    static PANIC_LOC: RefCell<String> = const { RefCell::new(String::new()) };
+}
+fn install_panic_hook() {
+    std::panic::set_hook(Box::new(|info| {
+        let loc = info.location().map(|l| format!("{}:{}", l.file(), l.line())).unwrap_or_default();
+        PANIC_LOC.with(|c| *c.borrow_mut() = loc);
+    }));
+}
+fn last_loc() -> String {
+    let l = PANIC_LOC.with(|c| c.borrow().clone());
+    // keep the path repo-relative so that the class/witness does not depend on the checkout
+    match l.find("crates/") {
+        Some(i) => l[i..].to_string(),
+        None => l,
+    }
+}
+
+/// Narrow class of a panic: by the shape of the input for the known socket-address slicing, by
+/// location otherwise.
+fn panic_class(p: P, s: &str, loc: &str) -> String {
+    if p.is_sock() {
+        if let Some(colon) = s.rfind(':') {
+            let pre = &s[..colon];
+            if pre.is_empty() {
+                return "panic-socketaddr-unbracketed-empty-host".into();
+            }
+            if pre.chars().count() == 1 {
+                return "panic-socketaddr-single-char-before-port".into();
+            }
+            if !pre.is_char_boundary(1) || !pre.is_char_boundary(pre.len() - 1) {
+                return "panic-socketaddr-non-ascii-at-bracket-position".into();
+            }
+        }
+    }
+    let file_line = loc.rsplit('/').next().unwrap_or(loc);
+    format!("panic-{}@{}", p.name(), file_line)
+}
+
+/// One (parser, string) evaluation: real parser under catch vs the reference.
+fn eval(p: P, s: &str, st: &mut Stats) -> bool {
+    st.evals += 1;
+    let r = vpc::catch(|| real_parse(p, s));
+    let pi = p as usize;
+    match r {
+        Err(msg) => {
+            st.by[pi][O_PANIC] += 1;
+            let loc = last_loc();
+            let class = panic_class(p, s, &loc);
+            st.viol(&class, 0, p, "string", s, || (format!("parser panics instead of returning an error ({loc}: {msg})"), json!({"panic": msg, "at": loc})));
+            false
+        }
+        Ok(None) => {
+            if reference(p, s, 0).is_some() {
+                st.by[pi][O_REJ_DOC] += 1;
+                if st.rejdoc_samples.len() < 12 {
+                    st.rejdoc_samples.push((s.to_string(), p.name()));
+                }
+            } else {
+                st.by[pi][O_REJ] += 1;
+            }
+            false
+        }
+        Ok(Some(v)) => {
+            let strict = reference(p, s, 0);
+            if strict.as_ref() == Some(&v) {
+                let canon = vpc::catch(|| real_display(p, &v)).ok().flatten().as_deref() == Some(s);
+                st.by[pi][if canon { O_ACC_CANON } else { O_ACC_ALT }] += 1;
+            } else {
+                st.by[pi][O_ACC_BAD] += 1;
+                match minimal_lax(p, s, &v) {
+                    Some(mask) => {
+                        for b in 0..N_LAX {
+                            if mask & (1 << b) != 0 {
+                                st.viol(lax_class(1 << b), mask.count_ones(), p, "string", s, || {
+                                    let names: Vec<&str> = (0..N_LAX).filter(|b| mask & (1 << b) != 0).map(|b| lax_class(1 << b)).collect();
+                                    (lax_what(1 << b).to_string(), json!({"accepted_as": v.to_json(), "needed_relaxations": names, "reference_strict": strict.as_ref().map(|x| x.to_json())}))
+                                });
+                            }
+                        }
+                    }
+                    None => {
+                        let lenient = reference(p, s, LAX_ALL);
+                        let (class, what) = if strict.is_some() || lenient.is_some() {
+                            (format!("accepted-with-wrong-value-{}", p.name()), "parser accepts the string but yields a different value than the documented grammar")
+                        } else {
+                            (format!("unexplained-accept-{}", p.name()), "parser accepts a string that is neither a displayed form nor a documented alternative (no known relaxation explains it)")
+                        };
+                        st.viol(&class, 0, p, "string", s, || {
+                            (what.to_string(), json!({"accepted_as": v.to_json(), "reference_strict": strict.map(|x| x.to_json()), "reference_all_relaxations": lenient.map(|x| x.to_json())}))
+                        });
+                    }
+                }
+            }
+            true
+        }
+    }
+}
+
+/// One string into every parser.
+fn eval_all(s: &str, st: &mut Stats) {
+    st.strings += 1;
+    let mut any = false;
+    for p in ALL_P {
+        any |= eval(p, s, st);
+    }
+    if any {
+        st.strings_accepted_by_some_parser += 1;
+        st.accepted_hashes.push(vpc::fnv64(s.as_bytes()));
+    }
+}
+
+fn is_unnamed_svc(v: &Val) -> bool {
+    let h = match v {
+        Val::Host(h) | Val::Addr(_, h) | Val::Sock(_, h, _) => h,
+        _ => return false,
+    };
+    matches!(h, Host::Svc(x) if !matches!(x & 0x7fff, 1 | 2 | 0x10))
+}
+
+/// One value: display -> parse -> same value; serde string form likewise; reference self-check.
+fn roundtrip(p: P, v: &Val, with_serde: bool, st: &mut Stats) {
+    let pi = p as usize;
+    st.evals += 1;
+    let shown = match vpc::catch(|| real_display(p, v)) {
+        Ok(Some(s)) => s,
+        Ok(None) => {
+            st.ref_selfcheck_fail.push(format!("value {v:?} cannot be built as {}", p.name()));
+            return;
+        }
+        Err(msg) => {
+            st.rt_fail[pi] += 1;
+            st.viol(&format!("panic-display-{}", p.name()), 0, p, "value", "", || (format!("Display panics: {msg}"), json!({"value": v.to_json()})));
+            return;
+        }
+    };
+    // the reference must accept every displayed form with the right value (validates the oracle)
+    if reference(p, &shown, 0).as_ref() != Some(v) {
+        st.ref_selfcheck_fail.push(format!("reference({}, {shown:?}) != {v:?}", p.name()));
+    }
+    let back = vpc::catch(|| real_parse(p, &shown));
+    let unnamed = is_unnamed_svc(v);
+    match &back {
+        Ok(Some(b)) if b == v => st.rt_ok[pi] += 1,
+        _ => {
+            st.rt_fail[pi] += 1;
+            let class = if unnamed { "svc-display-unparseable".to_string() } else { format!("roundtrip-{}", p.name()) };
+            st.viol(&class, 0, p, "value", &shown, || {
+                let what = if unnamed {
+                    "the displayed form '<SVC:0x....>' of a service address other than CS/DS/Wildcard is rejected by the parser of the same type".to_string()
+                } else {
+                    format!("parse(display(v)) != v: display = {shown:?}, parse = {back:?}")
+                };
+                (what, json!({"value": v.to_json(), "parsed": format!("{back:?}")}))
+            });
+        }
+    }
+    if with_serde {
+        if let Ok(Some(js)) = vpc::catch(|| real_ser(p, v)) {
+            st.evals += 1;
+            let expect = format!("\"{shown}\"");
+            let back = vpc::catch(|| real_de(p, &js)).ok().flatten().flatten();
+            if js == expect && back.as_ref() == Some(v) {
+                st.serde_ok[pi] += 1;
+            } else {
+                st.serde_fail[pi] += 1;
+                let svc = unnamed && js == expect;
+                let class = if svc { "svc-display-unparseable".to_string() } else { format!("serde-roundtrip-{}", p.name()) };
+                st.viol(&class, 0, p, "serde", &shown, || {
+                    let what = if svc {
+                        "the serde string form '<SVC:0x....>' of a service address other than CS/DS/Wildcard does not deserialize".to_string()
+                    } else {
+                        format!("serde string form does not round-trip: serialized {js}, expected {expect}, deserialized {back:?}")
+                    };
+                    (what, json!({"value": v.to_json(), "serialized": js}))
+                });
+            }
+        }
+    }
+}
+
+// ---------------------------------------------------------------------------------------------
+// value sets
+// ---------------------------------------------------------------------------------------------
+
+const ISDS: [u16; 5] = [0, 1, 9, 10, 65535];
+const ASN_CORNER: [u64; 7] = [0, 1, 0xffff_ffff, 0x1_0000_0000, 0x1_0000_0001, 0xff00_0000_0110, 0xffff_ffff_ffff];
+const PORTS: [u16; 4] = [0, 1, 80, 65535];
+
+fn asn_full() -> Vec<u64> {
+    let mut v: Vec<u64> = ASN_CORNER.to_vec();
+    for g in 0..3 {
+        for x in 1..=0xffffu64 {
+            v.push(x << (16 * g));
+        }
+    }
+    v.sort_unstable();
+    v.dedup();
+    v
+}
+fn ia(isd: u16, asn: u64) -> u64 {
+    ((isd as u64) << 48) | asn
+}
+fn ia_corner() -> Vec<u64> {
+    ISDS.iter().flat_map(|i| ASN_CORNER.iter().map(move |a| ia(*i, *a))).collect()
+}
+fn v4_set() -> Vec<Host> {
+    ["0.0.0.0", "0.0.0.1", "1.2.3.4", "10.0.0.1", "100.99.9.0", "127.0.0.1", "192.0.2.1", "255.255.255.255"]
+        .iter()
+        .map(|s| Host::V4(u32::from(Ipv4Addr::from_str(s).unwrap())))
+        .collect()
+}
+fn v6_set() -> Vec<Host> {
+    [
+        "::",
+        "::1",
+        "1::",
+        "::ffff:10.0.0.1",         // v4-mapped
+        "::ffff:255.255.255.255",  // v4-mapped, max
+        "::1.2.3.4",               // v4-compatible (deprecated form)
+        "2001:db8:1:2:3:4:5:6",    // full
+        "2001:db8::1",             // compressed in the middle
+        "fe80::1:0:0:1",           // two zero runs, first is longer
+        "1:0:0:2::3",              // compressed later run
+        "ff02::9:0:0:10",
+        "ffff:ffff:ffff:ffff:ffff:ffff:ffff:ffff",
+    ]
+    .iter()
+    .map(|s| Host::V6(u128::from(Ipv6Addr::from_str(s).unwrap())))
+    .collect()
+}
+fn svc_all() -> Vec<Host> {
+    (0..=u16::MAX).map(Host::Svc).collect()
+}
+fn svc_small() -> Vec<Host> {
+    // CS, CS_M, DS, DS_M, Wildcard, Wildcard_M, three unnamed ones (incl. NONE = 0xffff)
+    [0x0002u16, 0x8002, 0x0001, 0x8001, 0x0010, 0x8010, 0x0000, 0x0003, 0xffff].iter().map(|x| Host::Svc(*x)).collect()
+}
+
+/// A lazily described block of (parser, values).
+struct Block {
+    p: P,
+    n: usize,
+    make: Box<dyn Fn(usize) -> Val + Sync + Send>,
+}
+
+fn product_addr(ias: Vec<u64>, hosts: Vec<Host>) -> (usize, impl Fn(usize) -> Val + Sync + Send) {
+    let n = ias.len() * hosts.len();
+    let nh = hosts.len();
+    (n, move |i| Val::Addr(ias[i / nh], hosts[i % nh]))
+}
+fn product_sock(ias: Vec<u64>, hosts: Vec<Host>, ports: Vec<u16>) -> (usize, impl Fn(usize) -> Val + Sync + Send) {
+    let nh = hosts.len();
+    let np = ports.len();
+    let n = ias.len() * nh * np;
+    (n, move |i| {
+        let port = ports[i % np];
+        let j = i / np;
+        Val::Sock(ias[j / nh], hosts[j % nh], port)
+    })
+}
+
+/// The value space (a). Quick keeps every stated value of every component but thins two
+/// PRODUCTS (stated in the bound): every-svc x ports, and every-single-group-AS x ISD.
+fn value_blocks(thorough: bool) -> (Vec<Block>, String) {
+    let asns = asn_full();
+    let iac = ia_corner();
+    let ia_full: Vec<u64> = ISDS.iter().flat_map(|i| asns.iter().map(move |a| ia(*i, *a))).collect();
+    // ISD-AS set used for "every single-group AS inside an address"
+    let ia_wide: Vec<u64> = if thorough { ia_full.clone() } else { [1u16, 65535].iter().flat_map(|i| asns.iter().map(move |a| ia(*i, *a))).collect() };
+    let (v4, v6, svc) = (v4_set(), v6_set(), svc_all());
+    let ip: Vec<Host> = v4.iter().chain(v6.iter()).copied().collect();
+    let any: Vec<Host> = ip.iter().chain(svc.iter()).copied().collect();
+    let any_small: Vec<Host> = ip.iter().copied().chain(svc_small()).collect();
+    // one host of each kind, for the products with every single-group AS
+    let one_each = vec![v4[3], v6[7], Host::Svc(2), Host::Svc(0x8001)];
+    let all_ports = PORTS.to_vec();
+    let wide_ports: Vec<u16> = if thorough { PORTS.to_vec() } else { vec![80] };
+    let mut b: Vec<Block> = vec![];
+    let mut add = |p: P, n: usize, f: Box<dyn Fn(usize) -> Val + Sync + Send>| b.push(Block { p, n, make: f });
+
+    add(P::Isd, 65536, Box::new(|i| Val::Isd(i as u16)));
+    {
+        let a = asns.clone();
+        add(P::Asn, a.len(), Box::new(move |i| Val::Asn(a[i])));
+    }
+    {
+        let a = ia_full.clone();
+        add(P::IsdAsn, a.len(), Box::new(move |i| Val::Ia(a[i])));
+    }
+    add(P::ServiceAddr, 65536, Box::new(|i| Val::Host(Host::Svc(i as u16))));
+    {
+        let a = any.clone();
+        add(P::ScionHostAddr, a.len(), Box::new(move |i| Val::Host(a[i])));
+    }
+    for p in [P::ScionAddr, P::ScionAddrV4, P::ScionAddrV6, P::ScionAddrSvc, P::ScionIpAddr] {
+        let hk = p.host_kind();
+        let hosts: Vec<Host> = any.iter().filter(|h| hk.admits(h)).copied().collect();
+        let (n, f) = product_addr(iac.clone(), hosts);
+        add(p, n, Box::new(f));
+        let few: Vec<Host> = one_each.iter().filter(|h| hk.admits(h)).copied().collect();
+        let (n, f) = product_addr(ia_wide.clone(), few);
+        add(p, n, Box::new(f));
+    }
+    for p in [P::ScionSocketAddr, P::ScionSocketAddrV4, P::ScionSocketAddrV6, P::ScionSocketAddrSvc, P::ScionSocketIpAddr] {
+        let hk = p.host_kind();
+        // every admitted host (incl. every svc) x 35 ISD-AS x ports (quick: port 80 only) ...
+        let hosts: Vec<Host> = any.iter().filter(|h| hk.admits(h)).copied().collect();
+        let (n, f) = product_sock(iac.clone(), hosts, wide_ports.clone());
+        add(p, n, Box::new(f));
+        // ... and the full port set with the IP hosts and the named/corner svc hosts
+        if !thorough {
+            let hosts: Vec<Host> = any_small.iter().filter(|h| hk.admits(h)).copied().collect();
+            let (n, f) = product_sock(iac.clone(), hosts, all_ports.clone());
+            add(p, n, Box::new(f));
+        }
+        let few: Vec<Host> = one_each.iter().filter(|h| hk.admits(h)).copied().collect();
+        let (n, f) = product_sock(ia_wide.clone(), few, wide_ports.clone());
+        add(p, n, Box::new(f));
+    }
+    // TXT records (payload and whole record): 1 entry and 2 entries over ia_corner x ip;
+    // 3 entries over a reduced entry set
+    let entries: Vec<(u64, Host)> = iac.iter().flat_map(|a| ip.iter().map(move |h| (*a, *h))).collect();
+    let few_ia = [ia(0, 0), ia(1, 0xff00_0000_0110), ia(65535, 0xffff_ffff_ffff), ia(10, 0xffff_ffff), ia(9, 0x1_0000_0000)];
+    let few_ip = [v4[3], v4[7], v6[0], v6[3], v6[7]];
+    let few_entries: Vec<(u64, Host)> = few_ia.iter().flat_map(|a| few_ip.iter().map(move |h| (*a, *h))).collect();
+    for p in [P::TxtPayload, P::TxtRecord] {
+        let e = entries.clone();
+        add(p, e.len(), Box::new(move |i| Val::List(vec![e[i]])));
+        let e = entries.clone();
+        let n = e.len();
+        add(p, n * n, Box::new(move |i| Val::List(vec![e[i / n], e[i % n]])));
+        let e = few_entries.clone();
+        let n = e.len();
+        add(p, n * n * n, Box::new(move |i| Val::List(vec![e[i / (n * n)], e[(i / n) % n], e[i % n]])));
+    }
+    let desc = format!(
+        "Isd all 65536; Asn = 7 corner + every AS with one non-zero hex group ({} values); IsdAsn = 5 ISD x that; ServiceAddr all 65536; ScionHostAddr = 8 IPv4 + 12 IPv6 + all 65536 svc; \
+         ScionAddr{{,V4,V6,Svc}}/ScionIpAddr = 35 ISD-AS (5 ISD x 7 AS) x every admitted host (incl. every svc), plus every single-group AS x {} ISD x one host per kind; \
+         ScionSocketAddr{{,V4,V6,Svc}}/ScionSocketIpAddr = 35 ISD-AS x every admitted host (incl. every svc) x {}, plus every single-group AS x {} ISD x one host per kind x {}; \
+         TXT payload and record: 1 and 2 entries over 35 ISD-AS x 20 IP, 3 entries over 25 entries",
+        asns.len(),
+        if thorough { "5" } else { "2 (1, 65535)" },
+        if thorough { "ports {0,1,80,65535}" } else { "port 80, and x ports {0,1,80,65535} for the 20 IP + 9 named/corner svc hosts" },
+        if thorough { "5" } else { "2" },
+        if thorough { "4 ports" } else { "port 80" },
+    );
+    (b, desc)
+}
+
+// ---------------------------------------------------------------------------------------------
+// string spaces
+// ---------------------------------------------------------------------------------------------
+
+/// The alphabet of the exhaustive space and of the quick-tier edits.
+const ALPHABET: [char; 15] = ['0', '1', '9', 'f', 'g', ':', '-', ',', '[', ']', '.', '#', '+', ' ', 'é'];
+
+/// Thorough-tier edit alphabet: printable ASCII plus a few non-ASCII / control characters.
+fn wide_alphabet() -> Vec<char> {
+    let mut v: Vec<char> = (0x20u8..=0x7e).map(|b| b as char).collect();
+    v.extend(['é', '\t', '\n', '\0', '\u{a0}', '１', '\u{200b}']);
+    v
+}
+
+fn dfs(buf: &mut String, len: usize, lmax: usize, st: &mut Stats) {
+    eval_all(buf, st);
+    if len < lmax {
+        for c in ALPHABET {
+            buf.push(c);
+            dfs(buf, len + 1, lmax, st);
+            buf.pop();
+        }
+    }
+}
+
+/// All strings of length <= lmax over ALPHABET into every parser.
+fn exhaustive_strings(lmax: usize) -> Stats {
+    // strings shorter than the split depth, then one task per prefix of that depth
+    let depth = lmax.min(3);
+    let mut st = Stats::default();
+    let mut prefixes: Vec<String> = vec![String::new()];
+    for d in 0..depth {
+        let mut next = vec![];
+        for pre in &prefixes {
+            if pre.chars().count() == d {
+                for c in ALPHABET {
+                    let mut s = pre.clone();
+                    s.push(c);
+                    next.push(s);
+                }
+            }
+        }
+        // strings of length d are complete here
+        for pre in &prefixes {
+            eval_all(pre, &mut st);
+        }
+        prefixes = next;
+    }
+    let deep = prefixes
+        .par_iter()
+        .map(|pre| {
+            let mut st = Stats::default();
+            let mut buf = pre.clone();
+            dfs(&mut buf, depth, lmax, &mut st);
+            st
+        })
+        .reduce(Stats::default, Stats::merge);
+    st.merge(deep)
+}
+
+/// Every single-character deletion, substitution and insertion over `alpha`.
+fn single_edits(base: &str, alpha: &[char], out: &mut Vec<String>) {
+    let chars: Vec<char> = base.chars().collect();
+    for i in 0..chars.len() {
+        let mut s: String = chars[..i].iter().collect();
+        s.extend(&chars[i + 1..]);
+        out.push(s);
+        for c in alpha {
+            if *c != chars[i] {
+                let mut s: String = chars[..i].iter().collect();
+                s.push(*c);
+                s.extend(&chars[i + 1..]);
+                out.push(s);
+            }
+        }
+    }
+    for i in 0..=chars.len() {
+        for c in alpha {
+            let mut s: String = chars[..i].iter().collect();
+            s.push(*c);
+            s.extend(&chars[i..]);
+            out.push(s);
+        }
+    }
+}
+
+/// Displayed forms (by the real Display) of the reduced value set used as edit bases.
+fn edit_bases() -> Vec<(P, String)> {
+    let iac = ia_corner();
+    let hosts: Vec<Host> = v4_set().into_iter().chain(v6_set()).chain(svc_small()).collect();
+    let mut vals: Vec<(P, Val)> = vec![];
+    for i in ISDS {
+        vals.push((P::Isd, Val::Isd(i)));
+    }
+    for a in ASN_CORNER.iter().chain([0xffff, 0xffff_0000, 0xffff_0000_0000].iter()) {
+        vals.push((P::Asn, Val::Asn(*a)));
+    }
+    for a in &iac {
+        vals.push((P::IsdAsn, Val::Ia(*a)));
+    }
+    for h in &hosts {
+        vals.push((P::ScionHostAddr, Val::Host(*h)));
+    }
+    for a in &iac {
+        for h in &hosts {
+            vals.push((P::ScionAddr, Val::Addr(*a, *h)));
+            for port in PORTS {
+                vals.push((P::ScionSocketAddr, Val::Sock(*a, *h, port)));
+            }
+        }
+    }
+    // TXT records: 1 entry over ia_corner x ip; 2 and 3 entries over a small entry set
+    let ip: Vec<Host> = v4_set().into_iter().chain(v6_set()).collect();
+    for a in &iac {
+        for h in &ip {
+            vals.push((P::TxtRecord, Val::List(vec![(*a, *h)])));
+        }
+    }
+    let few: Vec<(u64, Host)> = vec![(ia(1, 0xff00_0000_0110), ip[3]), (ia(65535, 0xffff_ffff_ffff), ip[15]), (ia(0, 0), ip[8]), (ia(10, 0xffff_ffff), ip[11])];
+    for a in &few {
+        for b in &few {
+            vals.push((P::TxtRecord, Val::List(vec![*a, *b])));
+        }
+    }
+    for a in &few[..2] {
+        for b in &few[..2] {
+            for c in &few[..2] {
+                vals.push((P::TxtRecord, Val::List(vec![*a, *b, *c])));
+            }
+        }
+    }
+    vals.into_iter().filter_map(|(p, v)| real_display(p, &v).map(|s| (p, s))).collect()
+}
+
+/// Bracket mismatches of socket-address and TXT forms (beyond what one edit reaches).
+fn bracket_forms() -> Vec<String> {
+    let mut out: Vec<String> = vec![];
+    let inner = ["1-ff00:0:110,10.0.0.1", "1-1,10.0.0.1", "0-0,::", "1-ff00:0:110,2001:db8::1", "1-ff00:0:110,CS", "65535-ffff:ffff:ffff,Wildcard_M", "11-ff00:0:110,10.0.0.11", "0", "", "x"];
+    let ports = ["80", "0", "65535", "", "65536", "+80"];
+    for a in inner {
+        for port in ports {
+            // every pair of characters at the two bracket positions
+            for o in ALPHABET.iter().map(|c| c.to_string()).chain(["".to_string(), "(".into(), "[[".into(), "x".into(), "<".into()]) {
+                for c in ALPHABET.iter().map(|c| c.to_string()).chain(["".to_string(), ")".into(), "]]".into(), "y".into(), ">".into()]) {
+                    out.push(format!("{o}{a}{c}:{port}"));
+                }
+            }
+            out.push(format!("[{a}]{port}")); // no separator
+            out.push(format!("[{a}]")); // no port at all
+            out.push(format!("[{a}]:{port}:"));
+            out.push(format!("[{a}]:{port}]"));
+            out.push(format!("[{a}:{port}]"));
+            out.push(format!("{a}:[{port}]"));
+            out.push(format!("[[{a}]:{port}]:{port}"));
+        }
+        // brackets around the host only / IPv6 literal style
+        if let Some((ia, host)) = a.split_once(',') {
+            for port in ports {
+                out.push(format!("{ia},[{host}]:{port}"));
+                out.push(format!("[{ia},[{host}]]:{port}"));
+                out.push(format!("[{ia}],{host}:{port}"));
+                out.push(format!("[{ia}],[{host}]:{port}"));
+            }
+        }
+    }
+    for s in [":", "::", ":80", "x:80", "é:80", "[:80", "]:80", "[]:80", "][:80", "[[]]:80", "éé:80", "[é]:80", "é1-1,10.0.0.1]:80", "[1-1,10.0.0.1é:80", "é1-1,10.0.0.1é:80"] {
+        out.push(s.to_string());
+    }
+    // TXT: bracket trouble
+    let e = ["19-ff00:0:110,192.0.2.1", "1-1,::1"];
+    for a in e {
+        for b in e {
+            for pre in ["scion=v1;", ""] {
+                out.push(format!("{pre}[{a}],[{b}"));
+                out.push(format!("{pre}[{a},[{b}]"));
+                out.push(format!("{pre}[{a}]],[{b}]"));
+                out.push(format!("{pre}[[{a}],[{b}]"));
+                out.push(format!("{pre}{a}],[{b}]"));
+                out.push(format!("{pre}[{a}][{b}]"));
+                out.push(format!("{pre}[{a}],{b}"));
+                out.push(format!("{pre}[{a}],[{b}]]"));
+                out.push(format!("{pre}]{a}[,[{b}]"));
+                out.push(format!("{pre}[{a}],[]"));
+                out.push(format!("{pre}[],[{b}]"));
+                out.push(format!("{pre}[{a}]:80,[{b}]"));
+                out.push(format!("{pre}[[{a}]:80],[{b}]"));
+            }
+        }
+    }
+    out
+}
+
+/// Numeric overflow / sign / leading-zero tokens in every numeric field of every form.
+fn numeric_forms() -> Vec<String> {
+    let tokens: Vec<String> = [
+        "0", "00", "01", "0001", "00001", "00000000000000000000000001", "1", "9", "10", "255", "256", "0255", "65535", "65536", "065535", "99999", "4294967295", "4294967296", "04294967295",
+        "281474976710655", "281474976710656", "18446744073709551615", "18446744073709551616", "99999999999999999999", "340282366920938463463374607431768211456", "+0", "+1", "+65535", "+65536",
+        "+4294967295", "-0", "-1", "+", "-", "++1", "+-1", "1+", "", " 1", "1 ", "0x1", "0X1", "1e1", "1_0", "1.0", "１", "٣", "ffff", "FFFF", "fFfF", "0ffff", "00ffff", "10000", "fffff", "+ffff", "+f", "-f",
+        "g", "0xffff", "ffffffffffff", "ffff:ffff", "1:0", "0:1:0:0",
+    ]
+    .iter()
+    .map(|s| s.to_string())
+    .collect();
+    let mut out = vec![];
+    for t in &tokens {
+        // identifiers
+        out.push(t.clone());
+        out.push(format!("{t}:0:0"));
+        out.push(format!("0:{t}:0"));
+        out.push(format!("0:0:{t}"));
+        out.push(format!("{t}:{t}:{t}"));
+        out.push(format!("{t}-ff00:0:110"));
+        out.push(format!("1-{t}"));
+        out.push(format!("1-{t}:0:110"));
+        out.push(format!("1-ff00:{t}:110"));
+        out.push(format!("1-ff00:0:{t}"));
+        out.push(format!("{t}-{t}"));
+        // hosts
+        out.push(format!("{t}.0.0.1"));
+        out.push(format!("10.{t}.0.1"));
+        out.push(format!("10.0.0.{t}"));
+        out.push(format!("::{t}"));
+        out.push(format!("{t}::"));
+        out.push(format!("2001:db8::{t}"));
+        out.push(format!("<SVC:0x{t}>"));
+        out.push(format!("<SVC:{t}>"));
+        out.push(format!("CS_{t}"));
+        // addresses and socket addresses
+        for host in ["10.0.0.1", "2001:db8::1", "CS"] {
+            out.push(format!("{t}-ff00:0:110,{host}"));
+            out.push(format!("1-{t},{host}"));
+            out.push(format!("1-ff00:{t}:110,{host}"));
+            out.push(format!("[{t}-ff00:0:110,{host}]:80"));
+            out.push(format!("[1-{t},{host}]:80"));
+            out.push(format!("[1-{t}:0:1,{host}]:80"));
+            out.push(format!("[1-ff00:0:110,{host}]:{t}"));
+            out.push(format!("[{t}-{t},{host}]:{t}"));
+        }
+        out.push(format!("1-ff00:0:110,10.0.0.{t}"));
+        out.push(format!("[1-ff00:0:110,10.0.0.{t}]:80"));
+        out.push(format!("[1-ff00:0:110,::{t}]:80"));
+        // TXT
+        for pre in ["scion=v1;", ""] {
+            out.push(format!("{pre}[{t}-ff00:0:110,192.0.2.1]"));
+            out.push(format!("{pre}[19-{t},192.0.2.1]"));
+            out.push(format!("{pre}[19-{t}:0:110,192.0.2.1]"));
+            out.push(format!("{pre}[19-ff00:0:110,192.0.2.{t}]"));
+            out.push(format!("{pre}[19-ff00:0:110,::{t}]"));
+            out.push(format!("{pre}[19-ff00:0:110,192.0.2.1],[{t}-{t},::1]"));
+        }
+        out.push(format!("scion=v{t};[19-ff00:0:110,192.0.2.1]"));
+    }
+    out
+}
+
+/// TXT spelling variants: separators, whitespace, prefix.
+fn txt_forms() -> Vec<String> {
+    let mut out = vec![];
+    let a = "[19-ff00:0:110,192.0.2.1]";
+    let b = "[19-ff00:0:111,2001:db8::1]";
+    let ws = ["", " ", "  ", "\t", "\n", "\u{a0}", "\u{200b}", "é"];
+    for pre in ["scion=v1;", ""] {
+        for w in ws {
+            out.push(format!("{pre}{w}{a}"));
+            out.push(format!("{pre}{a}{w}"));
+            out.push(format!("{pre}{a}{w},{b}"));
+            out.push(format!("{pre}{a},{w}{b}"));
+            out.push(format!("{pre}{a}{w},{w}{b}"));
+            out.push(format!("{pre}{a},{w}"));
+            out.push(format!("{pre}{a}{w},"));
+            out.push(format!("{pre}{w},{a}"));
+            out.push(format!("{pre}{a},{w},{b}"));
+            out.push(format!("{pre}{a}{w}{b}"));
+            out.push(format!("{pre}[{w}19-ff00:0:110,192.0.2.1]"));
+            out.push(format!("{pre}[19-ff00:0:110{w},192.0.2.1]"));
+            out.push(format!("{pre}[19-ff00:0:110,{w}192.0.2.1]"));
+            out.push(format!("{pre}[19-ff00:0:110,192.0.2.1{w}]"));
+            out.push(format!("{pre}[19{w}-ff00:0:110,192.0.2.1]"));
+            out.push(format!("{pre}[19-ff00:0:110,192.0{w}.2.1]"));
+            out.push(format!("{pre}{w}"));
+        }
+        out.push(format!("{pre}{a},{b},"));
+        out.push(format!("{pre}{a},,{b}"));
+        out.push(format!("{pre}{a};{b}"));
+        out.push(format!("{pre}{a},{b},{a},{b}"));
+        out.push(format!("{pre}[19-ff00:0:110,CS]"));
+        out.push(format!("{pre}[19-ff00:0:110,192.0.2.1,192.0.2.2]"));
+        out.push(format!("{pre}[19-ff00:0:110;192.0.2.1]"));
+        out.push(format!("{pre}[19-64512,192.0.2.1]"));
+        out.push(format!("{pre}[19-ff00:0:110,192.0.2.1]:443"));
+        out.push(format!("{pre}[19-ff00:0:110,[2001:db8::1]]"));
+        out.push(format!("{pre}19-ff00:0:110,192.0.2.1"));
+    }
+    for pre in ["scion=v1", "scion=v2;", "SCION=v1;", "scion=V1;", " scion=v1;", "scion =v1;", "scion=v1;;", "scion=v1;scion=v1;", "scion=v1,", "scion=;", "=v1;", "scion=v1; ;"] {
+        out.push(format!("{pre}{a}"));
+    }
+    out
+}
+
+/// Strings (already generated) into every parser, in parallel, deterministic merge.
+fn run_strings(strings: &[String]) -> Stats {
+    strings
+        .par_chunks(2048)
+        .map(|chunk| {
+            let mut st = Stats::default();
+            for s in chunk {
+                eval_all(s, &mut st);
+            }
+            st
+        })
+        .reduce(Stats::default, Stats::merge)
+}
+
+/// Single edits of every base over `alpha`, generated and evaluated per base in parallel.
+fn run_edits(bases: &[(P, String)], alpha: &[char]) -> Stats {
+    bases
+        .par_iter()
+        .map(|(_, base)| {
+            let mut st = Stats::default();
+            let mut edits = vec![];
+            single_edits(base, alpha, &mut edits);
+            for s in &edits {
+                eval_all(s, &mut st);
+            }
+            st
+        })
+        .reduce(Stats::default, Stats::merge)
+}
+
+fn run_values(blocks: &[Block], with_serde: bool) -> Stats {
+    let mut total = Stats::default();
+    for b in blocks {
+        let st = (0..b.n)
+            .into_par_iter()
+            .with_min_len(4096)
+            .fold(Stats::default, |mut st, i| {
+                roundtrip(b.p, &(b.make)(i), with_serde, &mut st);
+                st
+            })
+            .reduce(Stats::default, Stats::merge);
+        total = total.merge(st);
+    }
+    total
+}
+
+// ---------------------------------------------------------------------------------------------
+// replay
+// ---------------------------------------------------------------------------------------------
+
+fn replay(path: &std::path::Path) -> ! {
+    let doc = vpc::read_replay(path);
+    let w = doc.get("witness").cloned().unwrap_or(doc.clone());
+    let pname = w.get("parser").and_then(|x| x.as_str()).unwrap_or("");
+    let Some(p) = P::from_name(pname) else { vpc::machinery_failure(&format!("replay: unknown parser {pname:?}")) };
+    let mode = w.get("mode").and_then(|x| x.as_str()).unwrap_or("string");
+    let mut st = Stats::default();
+    println!("replay: property C15, recorded class {:?}", doc.get("class").and_then(|c| c.as_str()).unwrap_or("?"));
+    match mode {
+        "value" | "serde" => {
+            let Some(v) = w.get("detail").and_then(|d| d.get("value")).and_then(Val::from_json) else { vpc::machinery_failure("replay: no value in witness") };
+            println!("parser      : {}", p.name());
+            println!("value       : {v:?}");
+            println!("display     : {:?}", vpc::catch(|| real_display(p, &v)));
+            if let Ok(Some(s)) = vpc::catch(|| real_display(p, &v)) {
+                println!("parse(disp) : {:?}", vpc::catch(|| real_parse(p, &s)));
+                println!("reference   : {:?}", reference(p, &s, 0));
+            }
+            if let Ok(Some(js)) = vpc::catch(|| real_ser(p, &v)) {
+                println!("serde ser   : {js}");
+                println!("serde de    : {:?}", vpc::catch(|| real_de(p, &js)));
+            }
+            roundtrip(p, &v, true, &mut st);
+        }
+        _ => {
+            let s = match w.get("input_utf8_hex").and_then(|x| x.as_str()) {
+                Some(h) => String::from_utf8(vpc::unhex(h)).unwrap_or_else(|_| vpc::machinery_failure("replay: input is not UTF-8")),
+                None => w.get("input").and_then(|x| x.as_str()).unwrap_or("").to_string(),
+            };
+            println!("parser      : {}", p.name());
+            println!("input       : {s:?}");
+            let r = vpc::catch(|| real_parse(p, &s));
+            match &r {
+                Err(m) => println!("real parser : PANIC {m} at {}", last_loc()),
+                Ok(x) => println!("real parser : {x:?}"),
+            }
+            println!("reference   : {:?}   (documented grammar)", reference(p, &s, 0));
+            if let Ok(Some(v)) = &r {
+                if let Some(mask) = minimal_lax(p, &s, v) {
+                    let names: Vec<&str> = (0..N_LAX).filter(|b| mask & (1 << b) != 0).map(|b| lax_class(1 << b)).collect();
+                    println!("explained by: {names:?}");
+                }
+            }
+            eval(p, &s, &mut st);
+        }
+    }
+    if st.viols.is_empty() {
+        println!("REPLAY: no violation reproduced");
+        std::process::exit(0)
+    }
+    for (c, a) in &st.viols {
+        println!("REPLAY: VIOLATION reproduced [{c}] {}", a.what);
+    }
+    std::process::exit(1)
+}
+
+// ---------------------------------------------------------------------------------------------
+// entry point
+// ---------------------------------------------------------------------------------------------
+
 pub fn run(args: &vpc::Args) -> ! {
-    vpc::machinery_failure(&format!("property {} not implemented yet", args.prop))
+    vpc::quiet_panics();
+    install_panic_hook();
+    if let Some(path) = &args.replay {
+        replay(path);
+    }
+    let run = vpc::Run::new(args);
+    let lmax: usize = run.tier.pick(5, 7);
+    let thorough = run.tier == vpc::Tier::Thorough;
+
+    // (a) values
+    let (blocks, values_desc) = value_blocks(thorough);
+    let n_values: usize = blocks.iter().map(|b| b.n).sum();
+    let t0 = run.elapsed_s();
+    let sv = run_values(&blocks, true);
+    let t_values = run.elapsed_s() - t0;
+    if !sv.ref_selfcheck_fail.is_empty() {
+        vpc::machinery_failure(&format!("reference recogniser rejects a displayed form (oracle bug): {:?}", sv.ref_selfcheck_fail));
+    }
+
+    // (b) strings
+    let t0 = run.elapsed_s();
+    let sx = exhaustive_strings(lmax);
+    let t_exh = run.elapsed_s() - t0;
+    let n_exh = sx.strings;
+
+    let t0 = run.elapsed_s();
+    let bases = edit_bases();
+    let alpha: Vec<char> = if thorough { wide_alphabet() } else { ALPHABET.to_vec() };
+    let se = run_edits(&bases, &alpha);
+    let t_edits = run.elapsed_s() - t0;
+    let n_edits = se.strings;
+
+    let t0 = run.elapsed_s();
+    let mut special: Vec<String> = bracket_forms();
+    let n_br = special.len();
+    special.extend(numeric_forms());
+    let n_num = special.len() - n_br;
+    special.extend(txt_forms());
+    let n_txt = special.len() - n_br - n_num;
+    let ss = run_strings(&special);
+    let t_special = run.elapsed_s() - t0;
+
+    // ---- merge, report (deterministic order) ----
+    let rt_pairs: u64 = sv.rt_ok.iter().sum::<u64>() + sv.serde_ok.iter().sum::<u64>();
+    let rt_values: u64 = sv.rt_ok.iter().sum();
+    let mut all = sv.merge(sx).merge(se).merge(ss);
+    all.accepted_hashes.sort_unstable();
+    all.accepted_hashes.dedup();
+    let distinct_accepted = all.accepted_hashes.len() as u64;
+
+    let mut per_parser = serde_json_map();
+    for p in ALL_P {
+        let pi = p as usize;
+        let mut m = serde_json_map();
+        for k in 0..NO {
+            m.insert(O_NAMES[k].to_string(), json!(all.by[pi][k]));
+            if all.by[pi][k] > 0 {
+                run.outcome_n(&format!("{}:{}", p.name(), O_NAMES[k]), all.by[pi][k]);
+            }
+        }
+        m.insert("values-roundtrip-ok".into(), json!(all.rt_ok[pi]));
+        m.insert("values-roundtrip-FAIL".into(), json!(all.rt_fail[pi]));
+        m.insert("serde-roundtrip-ok".into(), json!(all.serde_ok[pi]));
+        m.insert("serde-roundtrip-FAIL".into(), json!(all.serde_fail[pi]));
+        if all.rt_ok[pi] > 0 {
+            run.outcome_n(&format!("{}:value-roundtrip-ok", p.name()), all.rt_ok[pi]);
+        }
+        if all.rt_fail[pi] > 0 {
+            run.outcome_n(&format!("{}:value-roundtrip-FAIL", p.name()), all.rt_fail[pi]);
+        }
+        if all.serde_fail[pi] > 0 {
+            run.outcome_n(&format!("{}:serde-roundtrip-FAIL", p.name()), all.serde_fail[pi]);
+        }
+        per_parser.insert(p.name().to_string(), Value::Object(m));
+    }
+    for (s, pn) in all.rejdoc_samples.iter().take(5) {
+        run.sample(10, || json!({"kind": "rejected-though-in-documented-grammar (counted, not a violation)", "parser": pn, "input": s}));
+    }
+    for (p, s) in bases.iter().step_by(bases.len() / 5 + 1) {
+        run.sample(10, || json!({"kind": "edit base (displayed by the real code)", "type": p.name(), "form": s}));
+    }
+
+    let witnesses_per_class: BTreeMap<String, u64> = all.viols.iter().map(|(k, a)| (k.clone(), a.count)).collect();
+    for (class, a) in &all.viols {
+        run.violation(class, &a.what, a.min.json());
+        // exact witness counts are in coverage.witnesses_per_class; the Run counter is capped
+        for _ in 1..a.count.min(VIOL_CALL_CAP) {
+            run.violation(class, &a.what, Value::Null);
+        }
+    }
+
+    let bound = format!(
+        "(a) {} values round-tripped through Display/FromStr and the serde string form: {}. \
+         (b) all {} strings of length <= {} over the 15-char alphabet into all 17 parsers; {} single-char edits (deletion, substitution, insertion at every position; alphabet of {} chars) of {} displayed forms \
+         (5 ISD, 10 AS, 35 ISD-AS, 29 hosts, 35x29 addrs, 35x29x4 socket addrs, 700+16+8 TXT records); {} bracket-mismatch, {} numeric-overflow/sign/leading-zero, {} TXT-variant strings; every string into every parser",
+        n_values,
+        values_desc,
+        n_exh,
+        lmax,
+        n_edits,
+        alpha.len(),
+        bases.len(),
+        n_br,
+        n_num,
+        n_txt
+    );
+    run.finish(
+        "exploration",
+        json!({
+            "evaluations": all.evals,
+            "distinct_nontrivial": distinct_accepted + rt_values,
+            "rule": "distinct strings accepted by at least one real parser (fnv64 of the string) + distinct (type,value) pairs whose displayed form parsed back to the same value",
+            "distinct_strings_accepted_by_some_parser": distinct_accepted,
+            "values_roundtripped": rt_values,
+            "value_and_serde_roundtrips_ok": rt_pairs,
+            "strings_evaluated": all.strings,
+            "exhaustive": true,
+            "bound": bound,
+            "per_parser": per_parser,
+            "witnesses_per_class": witnesses_per_class,
+            "phase_wall_s": {"values": t_values, "exhaustive_strings": t_exh, "edits": t_edits, "special_forms": t_special},
+        }),
+        &[
+            "grammar = displayed forms + documented alternatives: ISD \\d+ (schema pattern), decimal AS < 2^32, hex groups 1*HEXDIG of value <= 0xffff (TXT ABNF; leading zeros allowed, either case), CS/DS/Wildcard with optional _A/_M, whitespace around ',' BETWEEN TXT entries (documented by test parse_txt_payload_allows_whitespace_between_entries)",
+            "host syntax is std's Ipv4Addr/Ipv6Addr FromStr (documentation silent); alternative IPv6 spellings are not alarms",
+            "port: 1*DIGIT <= 65535 (leading zeros tolerated like the other decimal fields); '+' signs are violations everywhere",
+            "a string rejected by the real parser although in the documented grammar is counted (rejected-though-in-grammar), not a violation: the property only bounds acceptance; displayed forms are covered by the value round-trip",
+            "TXT records have no Display in the subject; records are composed per the documented ABNF from the real Display of IsdAsn and IpAddr",
+            "TXT parsing is driven through additive hooks verif_parse_txt_payload / verif_resolve_txt_records (feature verif-hooks) that forward to the private functions",
+            "release profile (as configured in /verif/check): slicing panics are observable, arithmetic-overflow checks are off",
+        ],
+    )
+}
+
+fn serde_json_map() -> vpc::serde_json::Map<String, Value> {
+    vpc::serde_json::Map::new()
 }
